@@ -559,23 +559,44 @@ def V1t.run {M O} (st : V1t M O) (ops : List (Op1t M O)) : V1t M O := ops.foldl 
 may act on the port re-entrantly (`re`): publish on it, or drop it — the operation lands
 between two sends of the same poll -/
 
+/-- the converter call the next step of the port task will make, if any -/
+def V2c.peek {M O} (st : V2c M O) : Option (Nat × M) :=
+  if st.finished then none
+  else match st.base.pc with
+    | .disp _ (s :: _) _ (m :: _) _ => some (s.key, m)
+    | _ => none
+
+/-- the converter call the next iteration of forwarding task `i` will make, if any -/
+def V1c.peek {M O} (st : V1c M O) (i : Nat) : Option (Nat × M) :=
+  if st.finished.contains i then none
+  else match st.base.fwds[i]? with
+    | none => none
+    | some f =>
+      if f.ended || decide (f.cursor + st.base.cap < st.base.log.length) then none
+      else (st.base.log[f.cursor]?).map fun m => (f.key, m)
+
 /-- Run the v2 port task until it parks or finishes. `re c` = the port operations the
-converter call `c` performs on the port it is subscribed to (in the middle of the poll). -/
-def V2c.runTask {M O} (re : Call M → List (Op2c M O)) : Nat → V2c M O → List (Call M) → V2c M O × List (Call M)
+converter call `c` performs on the port it is subscribed to (in the middle of the poll);
+`pre (key, m)` = what the converter call about to be made does BEFORE it returns and the
+message is sent (e.g. it makes its own subscriber refuse messages). -/
+def V2c.runTask {M O} (re : Call M → List (Op2c M O)) (pre : Nat × M → List (Op2c M O) := fun _ => []) : Nat → V2c M O → List (Call M) → V2c M O × List (Call M)
   | 0, st, acc => (st, acc)
   | fuel + 1, st, acc =>
     if st.finished then (st, acc)
     else match st.closed, st.base.pc, st.base.queue with
       | false, .wait _ _, [] => (st, acc)
       | _, _, _ =>
+        let st := match st.peek with
+          | some km => st.run (pre km)
+          | none => st
         let (st', c) := st.task
         let st' := match c with
           | some c => st'.run (re c)
           | none => st'
-        V2c.runTask re fuel st' (acc ++ c.toList)
+        V2c.runTask re pre fuel st' (acc ++ c.toList)
 
 /-- Run forwarding task `i` until it parks or returns. -/
-def V1c.runTask {M O} (re : Call M → List (Op1c M O)) : Nat → V1c M O → Nat → List (Call M) → V1c M O × List (Call M)
+def V1c.runTask {M O} (re : Call M → List (Op1c M O)) (pre : Nat × M → List (Op1c M O) := fun _ => []) : Nat → V1c M O → Nat → List (Call M) → V1c M O × List (Call M)
   | 0, st, _, acc => (st, acc)
   | fuel + 1, st, i, acc =>
     match st.base.fwds[i]? with
@@ -583,11 +604,14 @@ def V1c.runTask {M O} (re : Call M → List (Op1c M O)) : Nat → V1c M O → Na
     | some f =>
       if st.taskDone i || (!st.closed && decide (st.base.log.length ≤ f.cursor)) then (st, acc)
       else
+        let st := match st.peek i with
+          | some km => st.run (pre km)
+          | none => st
         let (st', c) := st.task i
         let st' := match c with
           | some c => st'.run (re c)
           | none => st'
-        V1c.runTask re fuel st' i (acc ++ c.toList)
+        V1c.runTask re pre fuel st' i (acc ++ c.toList)
 
 /-! ## The property predicate (used by the theorems and, on the implementation's own
 observations, by the driver) -/
